@@ -27,7 +27,7 @@ claimed = {
          "contracts + VC generation over go/ssa + SMT"),
  'C05': ("Proved: toDecimal is exact per kind and never goes through float for non-float inputs (json.Number through decimal128.Parse of its text); + - * / // % abs ceil floor "
          "and the four comparisons are exactly the decimal128 operation on the operands' decimal values in argument order, Inf/NaN results become ErrInfinity/ErrNotANumber; "
-         "equal compares numbers with Decimal.Equal. Assumed: accuracy of decimal128 itself. Not yet: sum/avg folds, NegateNode.",
+         "equal compares numbers with Decimal.Equal. sum and avg are the left fold of decimal128 addition over the elements' decimal values from zero (avg: divided by the length), with Inf/NaN results turned into errors; unary minus negates the decimal value (zero stays zero) or the float. Assumed: accuracy of decimal128 itself (the 34-digit rounding statement is a property of that library).",
          "contracts + VC generation over go/ssa + SMT"),
  'C08': ("Finite proof over error type tags: each public error type's Is answers for exactly one sentinel; evaluateError/parseError map every internal error type and sentinel to the "
          "specified category (errors.Is modelled by its documented algorithm over the repository's Is/Unwrap methods); Search/Compile/Expression.Search return nil with an error; "
@@ -46,7 +46,7 @@ claimed = {
          "abstraction (isNum/numDec) and hold for every one of the 14 numeric kinds (a forgotten kind fails for that tag). Not covered: float fast path vs decimal path value agreement.",
          "contracts + VC generation over go/ssa + SMT"),
  'C16': ("Proved: the three delimiter scanners skip the character after a backslash, return exactly the text between the delimiters and fail only at end of input or on an undecodable byte; "
-         "a validly encoded U+FFFD is an ordinary rune; tokens keep their delimiters so the decoders can strip them safely. Not yet: the decoders' value (unescape functions) and the round-trip lemmas.",
+         "a validly encoded U+FFFD is an ordinary rune; tokens keep their delimiters so the decoders can strip them safely. a raw string or quoted identifier without a backslash decodes to exactly the text between its delimiters; \\u escapes have four hexadecimal digits, a surrogate pair is two \\u escapes, no raw control characters in quoted identifiers; decoding never lengthens a raw string. Not covered: the value of literals with escapes and the round-trip lemmas.",
          "contracts + VC generation over go/ssa + SMT"),
  'C17': ("Proved at the helper level: filterAndProjectArray keeps exactly the non-null projections of the elements whose filter value is truthy, in order (the composition filter-then-project); "
          "pruneArray equals a projection with the identity; mapArray keeps nulls; isProjectNode; per-case contracts of evaluate for the fused nodes (ProjectArrayNode applies the string short-cut only to slice nodes and yields null for other non-arrays, "
